@@ -5,6 +5,7 @@ from ..interp import Incomplete, Sink
 from ..ir import IRError
 from ..specs import base_spec
 from ..poly import Poly, FV
+from ..ir import IRError
 
 LEVEL = 'proof'
 PAT = r'^Goldilocks::(copy|add|sub|mul)_(avx512|avx|batch)\('
@@ -31,6 +32,50 @@ def run(rep, tier, seed):
         for n in names:
             nfun += 1
             wrapcheck.check_overload(rep, mod, cfg, n, specfn)
+    # parallel copy / zero helpers: exactly `size` elements for every size and thread-count argument (bounded tier;
+    # sequential-semantics IR here, the outlined OpenMP IR is analysed under C12)
+    from ..interp import Incomplete as _Inc, Sink as _Sink
+    mod = front.module('avx2', sroa=True)
+    sizes = list(range(0, 66)) + [100, 127, 128, 129, 255, 256, 257] if tier == 'quick' else list(range(0, 300)) + [1000, 1023, 1024, 1025, 4097]
+    npc = 0
+    for fname, hasrc in (('parcpy', True), ('parSetZero', False)):
+        names = mod.find_re(r'^Goldilocks::%s\(' % fname)
+        rep.floor(fname, len(names), 1)
+        for size in sizes:
+            for nt in (-3, -1, 0, 1, 2, 3, 4, 5, 7, 8, 9, 16, 64, 100):
+                npc += 1
+                tag = 'par:%s size=%d num_threads=%d' % (fname, size, nt)
+                site = 'src/goldilocks_base_field.cpp'
+                try:
+                    ext = {'dst': 8 * size}
+                    if hasrc:
+                        ext['src'] = 8 * size
+                    eff = harness.run_routine(mod, names[0], {}, values={'size': size, 'num_threads_copy': nt & 0xFFFFFFFF}, extents=ext)
+                except _Sink as e:
+                    rep.refute(tag, 'parcopy-bounded', wrapcheck.sink_site(e, site), str(e))
+                    continue
+                except (_Inc, IRError) as e:
+                    rep.incomplete(tag, 'parcopy-bounded', site, str(e))
+                    continue
+                bad = []
+                for i in range(size):
+                    v = eff.writes.get(('dst', 8 * i))
+                    if hasrc:
+                        ok = isinstance(v, FV) and v.nf == Poly.var('src[%d]' % i)
+                    else:
+                        ok = v == 0
+                    if not ok:
+                        bad.append('dst[%d] = %s' % (i, v))
+                        break
+                if len([k for k in eff.writes if k[0] == 'dst']) != size:
+                    bad.append('%d cells written, size is %d' % (len(eff.writes), size))
+                if hasrc and {k for k in eff.reads if k[0] == 'src'} != {('src', 8 * i) for i in range(size)}:
+                    bad.append('source read set is not exactly size elements')
+                if bad:
+                    rep.refute(tag, 'parcopy-bounded', site, '; '.join(bad))
+                else:
+                    rep.ok(tag, 'parcopy-bounded', site, 'exactly %d elements transferred, nothing else read or written' % size)
+    rep.cov['parcopy_configurations'] = npc
     rep.cov['functions_analysed'] = nfun
     rep.cov['configs'] = ['avx2', 'avx512']
     rep.trusted = ['clang 14 front end and -O0 lowering of the wrappers', 'glv abstract interpreter (IR subset semantics)',
